@@ -98,11 +98,12 @@ static htp_status_t htp_connp_req_receiver_send_data(htp_connp_t *connp, int is_
     d.is_last = is_last;
 
     htp_status_t rc = htp_hook_run_all(connp->in_data_receiver_hook, &d);
-    if (rc != HTP_OK) return rc;
 
+    // The data has been handed over, whatever the callbacks made of it; it must
+    // not be sent again (the chunk it lives in may be gone by then).
     connp->in_current_receiver_offset = connp->in_current_read_offset;
 
-    return HTP_OK;
+    return rc;
 }
 
 /**
